@@ -351,8 +351,12 @@ package state
 //@ ghost func FeeAmt(fee *transaction.Fee) int { return ite(fee == nil, 0, quantity.Val(&fee.Amount)) }
 //@ ghost func Deliver(ctx *abciAPI.Context) bool { return !abciAPI.IsSim(ctx) && !abciAPI.IsCheck(ctx) }
 
+//@ ghost var GMoveOK int
+
 //@ func AuthenticateAndPayFees
-//@   props C08 C09
+//@   props C08 C09 C05
+//@   ensures err != nil && !unavail(err) ==> GMoveOK == old(GMoveOK)
+//@   note (C05) the block fee accumulator lives in the block context and is NOT rolled back with a failing transaction, and EndBlock pays its content out: it is credited (the one quantity.Move of this function) only by a fee payment that then succeeds - every rejection (balance below fee plus minimum balance, wrong nonce, gas price) comes before the credit; a credit without the matching account write-back would be paid out on top of the recorded supply (seed C05_k moved the minimum-balance rejection behind the credit)
 //@   requires ctx != nil
 //@   requires fee == nil || quantity.Val(&fee.Amount) >= 0
 //@   assumes GNonce[staking.AddrOf(signer)] < 18446744073709551615
